@@ -42,8 +42,9 @@ class Job:
     """one exploration: entry function + concrete arguments + expectations"""
 
     def __init__(self, entry, args=(), label=None, witness=False, cfg=None, max_paths=20000, expect_panic=None,
-                 time_budget=None, installers=()):
+                 time_budget=None, installers=(), shard=None):
         self.entry = entry
+        self.shard = shard
         self.args = tuple(args)
         self.label = label or ('%s(%s)' % (entry.rsplit('.', 1)[-1], ','.join(map(str, args))))
         self.witness = witness  # vacuity twin: MUST produce a violation
@@ -118,7 +119,7 @@ class Check:
         try:
             I = self.new_interp(dict(job.cfg, keep_smt2=True), job.installers)
             res = explore(I, job.entry, job.args, max_paths=job.max_paths, expect_panic=job.expect_panic,
-                          time_budget=job.time_budget)
+                          time_budget=job.time_budget, shard=job.shard)
             out = {
                 'label': job.label, 'entry': job.entry, 'args': list(job.args), 'witness': job.witness,
                 'paths': res.paths, 'completed': res.completed, 'ended': res.ended, 'obligations': res.obligations,
